@@ -862,3 +862,231 @@ class ProgGen:
                                         'SUB s3 (a&, b$) STATIC'] + self.block(1, True) + ['END SUB']
         lines += ['FUNCTION f1% (a%)'] + self.block(1, True) + ['f1% = a% + 1', 'END FUNCTION']
         return '\n'.join(lines) + '\n'
+
+
+# ---------------------------------------------------------------------------
+# (6) jump-only control skeletons, constants at the type boundaries, repeated
+#     statements with different indentation (position oracle)
+
+def _jump_stmt(kind, target):
+    return {'goto': f'GOTO {target}', 'gosub': f'GOSUB {target}',
+            'ifgoto': f'IF x THEN GOTO {target}', 'ifthen': f'IF x THEN {target}',
+            'ifelse': f'IF x THEN GOTO {target} ELSE GOTO {target}',
+            'ongoto': f'ON x GOTO {target}, {target}',
+            'return': 'RETURN', 'returnto': f'RETURN {target}', 'real': 'x = x + 1',
+            'end': 'END'}[kind]
+
+
+JUMP_STYLES = ['lineno', 'label', 'label-own-line', 'reached']
+
+
+def _jump_program(style, stmts):
+    """stmts: [(kind, target index or None)]; node i carries label i"""
+    n = len(stmts)
+    if style == 'lineno':
+        name = [str(10 * (i + 1)) for i in range(n)]
+    else:
+        name = [['ping', 'pong', 'pang', 'pung'][i] for i in range(n)]
+    body = [_jump_stmt(k, name[t] if t is not None else None) for k, t in stmts]
+    if style == 'lineno':
+        return ''.join(f'{name[i]} {body[i]}\n' for i in range(n))
+    if style == 'label':
+        return ''.join(f'{name[i]}: {body[i]}\n' for i in range(n))
+    if style == 'label-own-line':
+        return ''.join(f'{name[i]}:\n    {body[i]}\n' for i in range(n))
+    # the skeleton is reached through an IF block, after an END
+    return ('INPUT x\nIF x THEN\n    GOTO ' + name[0] + '\nEND IF\nEND\n' +
+            ''.join(f'{name[i]}:\n    {body[i]}\n' for i in range(n)))
+
+
+def jump_skeletons():
+    """-> (exhaustive, mixes).  exhaustive: every map of n <= 3 labels / line
+    numbers to GOTO targets (all functional graphs: self loops, 2- and
+    3-cycles, chains into cycles) in 4 layouts, plus the single cycle of
+    length 4..6.  mixes: every assignment of {GOTO t, GOSUB t, IF x THEN GOTO
+    t, IF x THEN t, IF..ELSE GOTO, ON x GOTO, RETURN, RETURN t, a real
+    statement, END} to n <= 3 nodes."""
+    exh, mix = [], []
+    for n in (1, 2, 3):
+        for tg in itertools.product(range(n), repeat=n):
+            for st in JUMP_STYLES:
+                exh.append({'fam': 'jumps', 'cls': f'goto-map/{n}/{st}/' + ''.join(map(str, tg)),
+                            'src': _jump_program(st, [('goto', t) for t in tg])})
+    for n in (4, 5, 6):
+        for st in JUMP_STYLES[:2]:
+            stmts = [('goto', (i + 1) % n) for i in range(n)]
+            # label names only for n <= 4
+            if st == 'label' and n > 4:
+                continue
+            exh.append({'fam': 'jumps', 'cls': f'goto-cycle/{n}/{st}', 'src': _jump_program(st, stmts)})
+    kinds_t = ['goto', 'gosub', 'ifgoto', 'ifthen', 'ifelse', 'ongoto', 'returnto']
+    kinds_0 = ['return', 'real', 'end']
+    for n in (1, 2, 3):
+        # three nodes: GOTO / GOSUB / IF..GOTO / RETURN / a real statement only
+        kt = kinds_t if n < 3 else kinds_t[:3]
+        k0 = kinds_0 if n < 3 else kinds_0[:2]
+        opts = [(k, t) for k in kt for t in range(n)] + [(k, None) for k in k0]
+        for combo in itertools.product(opts, repeat=n):
+            if all(k == 'goto' for k, _ in combo):
+                continue
+            cls = f'mix/{n}/' + '+'.join(k + ('' if t is None else str(t)) for k, t in combo)
+            for st in (('lineno', 'label') if n < 3 else ('lineno',)):
+                if st == 'label' and any(k == 'ifthen' for k, _ in combo):
+                    continue        # IF x THEN <label> is not a jump
+                mix.append({'fam': 'jumps', 'cls': cls + '/' + st, 'src': _jump_program(st, list(combo))})
+    return exh, mix
+
+
+INT_MIN, INT_MAX, LNG_MIN, LNG_MAX = -32768, 32767, -2147483648, 2147483647
+SNG_MAX, DBL_MAX = '3.402823E+38', '1.797693134862315D+308'
+
+
+def _typed_const(ty, v):
+    """a constant expression of type `ty` with value v, written as
+    (literal op literal) so that it has that type: a literal 32768 alone is a
+    LONG, -32768 is the negation of a LONG"""
+    if ty in ('int', 'lng'):
+        suf = '%' if ty == 'int' else '&'
+        if v < 0:
+            return f'(-{-v - 1}{suf} - 1{suf})'
+        if v == 0:
+            return f'(1{suf} - 1{suf})'
+        return f'({v - 1}{suf} + 1{suf})'
+    suf, big = ('!', SNG_MAX) if ty == 'sng' else ('#', DBL_MAX)
+    return {'max': f'({big} * 1{suf})', '-max': f'(-{big} * 1{suf})', 'half': f'({big} / 2{suf})',
+            'tiny': ('(1E-38 / 1E7)' if ty == 'sng' else '(1D-308 / 1D10)'),
+            0: f'(1{suf} - 1{suf})', 1: f'(0{suf} + 1{suf})', -1: f'(0{suf} - 1{suf})',
+            2: f'(1{suf} + 1{suf})', 0.5: f'(1{suf} / 2{suf})',
+            40000: f'(39999{suf} + 1{suf})', 3e9: f'(2999999999{suf} + 1{suf})'}[v]
+
+
+BOUND_VALS = {
+    'int': [INT_MIN, INT_MIN + 1, -2, -1, 0, 1, 2, INT_MAX - 1, INT_MAX],
+    'lng': [LNG_MIN, LNG_MIN + 1, INT_MIN - 1, INT_MIN, -1, 0, 1, 2, INT_MAX, INT_MAX + 1, LNG_MAX - 1, LNG_MAX],
+    'sng': ['-max', -1, 0, 0.5, 1, 2, 40000, 3e9, 'tiny', 'half', 'max'],
+    'dbl': ['-max', -1, 0, 0.5, 1, 2, 40000, 3e9, 'tiny', 'half', 'max'],
+}
+BOUND_RHS = {
+    'int': [INT_MIN, -1, 0, 1, 2, INT_MAX],
+    'lng': [LNG_MIN, -1, 0, 1, 2, LNG_MAX],
+    'sng': ['-max', -1, 0, 0.5, 2, 'max'],
+    'dbl': ['-max', -1, 0, 0.5, 2, 'max'],
+}
+BOUND_CTX = [('assign', 'y = {}'), ('assign-int', 'y% = {}'), ('assign-lng', 'y& = {}'),
+             ('dim', 'DIM qq({})'), ('const', 'CONST kc = {}\nPRINT kc'),
+             ('index', 'arr(0) = 1\narr({}) = 1'), ('print', 'PRINT {}'),
+             ('operand', 'a& = 5\nb& = a& + {}\nPRINT b&')]
+UN_BOUND = ['-', '+', 'NOT', '- -', '- NOT', 'NOT -']
+_ARITH = {'+': lambda a, b: a + b, '-': lambda a, b: a - b, '*': lambda a, b: a * b,
+          '\\': lambda a, b: (abs(a) // abs(b)) * (1 if (a < 0) == (b < 0) else -1) if b else None,
+          'MOD': lambda a, b: 0 if b else None}
+
+
+def _near_bound(r):
+    return r is None or any(abs(r - b) <= 1 for b in (INT_MIN, INT_MAX, LNG_MIN, LNG_MAX))
+
+
+def const_boundaries():
+    """constant expressions at the boundaries of the four numeric types, for
+    every unary and binary operator, as assignment source / DIM bound / CONST
+    value / array index / PRINT item / operand of a variable expression.
+    -> (all contexts, assignment context only)"""
+    allctx, assign = [], []
+
+    def add(lst, cls, e, ctxs):
+        for cn, ct in ctxs:
+            lst.append({'fam': 'constbound', 'cls': f'{cls}/{cn}',
+                        'src': 'DIM arr(3) AS INTEGER\n' + ct.format(e) + '\n'})
+    for ty, vals in BOUND_VALS.items():
+        for v in vals:
+            e = _typed_const(ty, v)
+            add(allctx, f'val/{ty}/{v}', e, BOUND_CTX)
+            for u in UN_BOUND:
+                add(allctx, f'un/{u}/{ty}/{v}', f'{u} {e}', BOUND_CTX)
+        for op in BINOPS:
+            for a in vals:
+                for b in BOUND_RHS[ty]:
+                    if op == '^' and ty in ('int', 'lng') and abs(b) > 2 and abs(a) > 2:
+                        # folding an integer power with a huge exponent runs
+                        # into the CPU-time limit (outcome would depend on
+                        # the speed of the host)
+                        continue
+                    e = f'{_typed_const(ty, a)} {op} {_typed_const(ty, b)}'
+                    cls = f'bin/{op}/{ty}/{a}/{b}'
+                    # the exact result at or next to a boundary (or undefined):
+                    # every context; the rest of the grid: as assignment source
+                    near = False
+                    if ty in ('int', 'lng') and op in _ARITH:
+                        near = _near_bound(_ARITH[op](a, b))
+                    elif a in (INT_MIN, LNG_MIN, '-max', 'max') and b in (-1, 2, 'max'):
+                        near = True
+                    if near:
+                        add(allctx, cls, e, BOUND_CTX)
+                    else:
+                        add(assign, cls, e, BOUND_CTX[:1])
+        # mixed types: the boundary of the narrower type met from the wider one
+    for op in ('+', '-', '*', '\\', 'MOD', '/', 'AND', '^'):
+        for ta, a, tb, b in [('int', INT_MAX, 'lng', 1), ('int', INT_MIN, 'lng', -1),
+                             ('lng', LNG_MAX, 'int', 1), ('lng', LNG_MIN, 'int', -1),
+                             ('lng', LNG_MAX, 'sng', 1), ('lng', LNG_MIN, 'dbl', -1),
+                             ('sng', 'max', 'dbl', 2), ('dbl', 'max', 'sng', 2),
+                             ('int', INT_MIN, 'sng', -1), ('int', INT_MAX, 'dbl', 0.5)]:
+            e = f'{_typed_const(ta, a)} {op} {_typed_const(tb, b)}'
+            add(allctx, f'mixed/{op}/{ta}/{a}/{tb}/{b}', e, BOUND_CTX)
+    return allctx, assign
+
+
+# statements that are accepted in one place and rejected in another:
+# (name, accepted occurrence as lines with {S} = the indented statement,
+#  lines before the rejected occurrence, kind of error)
+INDENT_CATALOGUE = [
+    ('exit-sub', 'EXIT SUB', ['SUB sq', '{S}', 'END SUB'], []),
+    ('exit-function', 'EXIT FUNCTION', ['FUNCTION fq', '{S}', 'END FUNCTION'], []),
+    ('exit-for', 'EXIT FOR', ['FOR i = 1 TO 2', '{S}', 'NEXT'], []),
+    ('exit-do', 'EXIT DO', ['DO', '{S}', 'LOOP'], []),
+    ('endif-closes-for', 'END IF', ['IF x THEN', 'y = 1', '{S}'], ['FOR i = 1 TO 2']),
+    ('next-closes-if', 'NEXT', ['FOR i = 1 TO 2', '{S}'], ['IF x THEN']),
+    ('loop-closes-while', 'LOOP', ['DO', '{S}'], ['WHILE x']),
+    ('wend-closes-do', 'WEND', ['WHILE x', '{S}'], ['DO']),
+    ('endselect-closes-if', 'END SELECT', ['SELECT CASE x', 'CASE 1', '{S}'], ['IF x THEN']),
+    ('endsub-closes-function', 'END SUB', ['SUB sq', '{S}'], ['FUNCTION fq']),
+    ('endfunction-closes-sub', 'END FUNCTION', ['FUNCTION fq', '{S}'], ['SUB sq']),
+    ('endif-alone', 'END IF', ['IF x THEN', '{S}'], []),
+    ('next-alone', 'NEXT', ['FOR i = 1 TO 2', '{S}'], []),
+    ('loop-alone', 'LOOP', ['DO', '{S}'], []),
+    ('wend-alone', 'WEND', ['WHILE x', '{S}'], []),
+    ('endsub-alone', 'END SUB', ['SUB sq', '{S}'], []),
+    ('dup-dim', 'DIM qa(5)', ['{S}'], []),
+    ('dup-dim-scalar', 'DIM qs AS INTEGER', ['{S}'], []),
+    ('dup-const', 'CONST kq = 1', ['{S}'], []),
+    ('dup-label', 'lq: y = 1', ['{S}'], []),
+    ('dup-lineno', '10 y = 1', ['{S}'], []),
+    ('goto-undefined-after-sub', 'GOTO lq', ['SUB sq', 'lq: y = 1', '{S}', 'END SUB'], []),
+    ('undefined-sub-arg', 'CALL sq(1)', ['{S}', 'SUB sq(a%)', 'END SUB', 'SUB sr', '{S}', 'END SUB'], ['CONST sq = 1']),
+]
+INDENTS = [(4, 0), (40, 1), ('\t\t', 0), (1, 12)]
+TAILS = [('eot', ''), ('nl', '\n'), ('short-line', "\n'")]
+
+
+def indent_positions():
+    """programs with the same statement twice, differently indented: first
+    where it is accepted, later (at the end of the text) where it is rejected.
+    'errline' = index of the line the diagnostic has to be on.  The variant
+    'two-texts' has the accepted occurrence in a text compiled before in the
+    same process ('warm')."""
+    out = []
+    for name, stmt, acc, before in INDENT_CATALOGUE:
+        for i1, i2 in INDENTS:
+            p1 = i1 if isinstance(i1, str) else ' ' * i1
+            p2 = i2 if isinstance(i2, str) else ' ' * i2
+            first = [l.replace('{S}', p1 + stmt) for l in acc]
+            for tn, tail in TAILS:
+                second = before + [p2 + stmt]
+                src = '\n'.join(first + second) + tail
+                cls = f'{name}/{len(p1)}-{len(p2)}/{tn}'
+                out.append({'fam': 'indent-pos', 'cls': cls + '/one-text', 'src': src,
+                            'errline': len(first) + len(second) - 1})
+                out.append({'fam': 'indent-pos', 'cls': cls + '/two-texts',
+                            'src': '\n'.join(second) + tail, 'warm': ['\n'.join(first) + '\n'],
+                            'errline': len(second) - 1})
+    return out
